@@ -283,9 +283,11 @@ func oneHistory(run *verdict.Run, be *rig.Backend, tg *target, i int) {
 		if r.Intn(2) == 0 {
 			dep := uint32(r.Intn(int(sid)))
 			pr = &h2fp.Prio{Dep: dep, Excl: r.Intn(2) == 0, Weight: uint8(r.Intn(256))}
-			if pr.Dep != 0 || pr.Excl || pr.Weight != 0 {
-				prioCount++
+			if r.Intn(8) == 0 {
+				pr = &h2fp.Prio{} // PRIORITY flag with an all-zero block: legal, entry id:0:0:1
+				run.Add("headers_with_all_zero_priority_block", 1)
 			}
+			prioCount++
 		}
 		splits := r.Intn(4)
 		lo, err := c.Headers(sid, fields, pr, splits, true, r)
